@@ -87,7 +87,7 @@ Eff(s, i) ==
            THEN One(s, O(<<>>, {F(1, 2, FALSE, "echo", 9)}, 0, 1, "-"))      \* reply discipline itself: C08
            ELSE One(s, O(<<>>, {F(1, 0, FALSE, "echo", 9), F(9, 5, FALSE, "echo", 9)}, 0, 0, "-"))
 
-(* an observation obs = [frames, comm, cb, dt, cm] matches outcome r                             *)
+(* an observation obs = [frames, comm, cb, dt, cm, wfc] matches outcome r                        *)
 Cnt(q, x) == Cardinality({i \in 1..Len(q) : q[i] = x})
 Elems(q) == {q[i] : i \in 1..Len(q)}
 FramesOK(obsf, req, opt) ==
@@ -101,4 +101,5 @@ Matches(r, obs) ==
   /\ obs.cb <= r.out.cb
   /\ (r.out.dt # "-" => obs.dt = r.out.dt)
   /\ obs.cm = r.s.cm
+  /\ obs.wfc = (r.s.cm = "COMMUNICATING")      \* waitfor_communicating() reports "established" exactly in COMMUNICATING
 =============================================================================
